@@ -15,7 +15,7 @@ RULE = (
     "(a) conditions from the C06 grammar biased (70%) to GUARDED forms whose later operands are only defined when earlier ones hold "
     "(`xs and xs[0] > i`, `k in d and d[k] > i`, `b != 0 and a // b > i`, `0 < b < 10 // b`, `x is None or x + 1 > i`, guarded "
     "conditionals, ...) with inputs falsifying the guard; random sub-expressions are wrapped in counting probes P(k, e). x error "
-    "form {default, exception class, instance, factory}. (b) layout matrix: the same conditions rendered in 30 decorator layouts "
+    "form {default, exception class, instance, factory}. (b) layout matrix: the same conditions rendered in 34 decorator layouts "
     "(one line, many lines, keyword form with condition first/last, error lambdas before/after the condition and on neighbouring "
     "decorators, comments trailing/interleaved containing `def`/`class`/`@`, foreign decorators around, nested in classes and "
     "functions at several indentations, backslash continuation, blank lines and comments before def, async def, aliased imports, "
@@ -250,6 +250,33 @@ def layouts() -> List[Tuple[str, Any]]:
     def _(k, lam, e, d, ek, fp):
         return _fn("@icontract.require(lambda {}: {}, description={!r}{})".format(lam, e, d, ek), fp, k, pre="# @icontract.require(lambda: False)\n\n"), "f_" + k
 
+    # nested decorators some of whose physical lines are indented less than the `@` (legal inside parentheses and strings)
+    def _nested(k, deco_lines, fp, in_class=True):
+        if in_class:
+            head = "class CU_{}:\n".format(k)
+            tail = "    def f_{}(self, {}):\n        return None\n".format(k, fp)
+            return head + "\n".join(deco_lines) + "\n" + tail, "CU_{}().f_{}".format(k, k)
+        head = "def outer_u_{}():\n".format(k)
+        tail = "    def f_{}({}):\n        return None\n    return f_{}\n".format(k, fp, k)
+        return head + "\n".join(deco_lines) + "\n" + tail, "outer_u_{}()".format(k)
+
+    @add("method-continuation-indented-less-than-decorator")
+    def _(k, lam, e, d, ek, fp):
+        return _nested(k, ["    @icontract.require(lambda {}:".format(lam), "  {}, description={!r}{})".format(e, d, ek)], fp)
+
+    @add("method-comment-at-column-0-inside-decorator")
+    def _(k, lam, e, d, ek, fp):
+        return _nested(k, ["    @icontract.require(", "        lambda {}: {},".format(lam, e), "# a comment at column 0", "        description={!r}{})".format(d, ek)], fp)
+
+    @add("method-triple-quoted-description-continued-at-column-0")
+    def _(k, lam, e, d, ek, fp):
+        return _nested(k, ["    @icontract.require(", "        lambda {}: {},".format(lam, e), '        description="""{}'.format(d),
+                           'continued at column 0""".splitlines()[0]{})'.format(ek)], fp)
+
+    @add("function-in-function-closing-parenthesis-at-column-0")
+    def _(k, lam, e, d, ek, fp):
+        return _nested(k, ["    @icontract.require(", "        lambda {}: {}, description={!r}{}".format(lam, e, d, ek), ")"], fp, in_class=False)
+
     @add("invariant-on-class")
     def _(k, lam, e, d, ek, fp):
         return None  # handled separately (different parameters)
@@ -336,6 +363,8 @@ def judge(w, mod: Any, item: Dict[str, Any], twin: exprs.Twin, kwargs: Dict[str,
             key = "C07/all-quantifier-truth-test-returns-non-bool"
         elif isinstance(exc, RuntimeError) and "Failed to recompute" in str(exc):
             key = classify_recompute_failure(item["expr"], exc)
+        elif isinstance(exc, IndentationError):
+            key = "C07/decorator-line-indented-less-than-at-sign"
         elif form in ("default", "class") and (isinstance(exc, SyntaxError) or (
                 isinstance(exc, (ValueError, AssertionError)) and ("decorator" in str(exc) or "lambda" in str(exc)))):
             key = "C07/decorator-source-not-recovered/" + item["layout"]
@@ -400,8 +429,12 @@ def judge(w, mod: Any, item: Dict[str, Any], twin: exprs.Twin, kwargs: Dict[str,
 def classify_recompute_failure(expr: str, exc: BaseException) -> str:
     tree = ast.parse(expr, mode="eval")
     cause = exc.__cause__
-    has_starred = any(isinstance(n, ast.Starred) for n in ast.walk(tree))
-    if has_starred and isinstance(cause, NotImplementedError):
+    in_call = {id(a) for n in ast.walk(tree) if isinstance(n, ast.Call) for a in n.args if isinstance(a, ast.Starred)}
+    starred = [n for n in ast.walk(tree) if isinstance(n, ast.Starred)]
+    unpack_dict = any(isinstance(n, ast.Dict) and any(k is None for k in n.keys) for n in ast.walk(tree))
+    if isinstance(cause, (NotImplementedError, AssertionError)) and (unpack_dict or any(id(n) not in in_call for n in starred)):
+        return "C07/unpacking-in-display-unhandled"
+    if starred and isinstance(cause, NotImplementedError):
         return "C07/starred-call-argument-unhandled"
     # a guarded operand inside the element / filter of a comprehension
     for comp in ast.walk(tree):
